@@ -430,16 +430,16 @@ STANDINS = {
 
 for _p, _m in (('C01', 'read'), ('C02', 'write')):                  # the Window twin also guards the read side of C01 and the write side of C02
     STANDINS.setdefault(_p, []).append(dict(STANDINS['C18'][0], args={'quick': [_m], 'thorough': [_m]}))
-for _p, _m in (('C01', 'send'), ('C02', 'recv'), ('C07', 'channel'), ('C08', 'channel')):
+for _p, _m in (('C01', 'send'), ('C02', 'recv'), ('C07', 'errors'), ('C08', 'channel')):
     STANDINS.setdefault(_p, []).append(
-        {'name': 'bounded_socket', 'bin': 'bounded_socket', 'extract': False, 'confirm': True, 'args': {'quick': [_m], 'thorough': ['all']},
+        {'name': 'bounded_socket', 'bin': 'bounded_socket', 'extract': False, 'confirm': True, 'args': {'quick': [_m], 'thorough': [_m]},
          'assumed_contract': 'socket layer: the contracts of UdpSocket::{send,send_to,recv_with_size,recv_from_with_size} and ServerSocket::{send,send_to} rest on assumed '
                              'specifications of std UDP calls (the datagram handed to the OS is the one that travels); ServerSocket::recv_with_size (mutex-guarded channel, '
                              'recv_timeout) is external_body: assumed to hand out the routed packets one per call, in order, and to fail after the configured time-out',
          'bound': 'real sockets on loopback: 14 packets (DATA with 0..65464 payload bytes incl. 65459..65464, block numbers 1/65535/0; ACK; ERROR with a 600-byte message) through the '
                   'four send paths, compared byte for byte with an independent RFC encoding; the same datagrams through recv_with_size / recv_from_with_size with blksize = payload '
                   'length and 65464; every sequence of 1..4 packets over {ACK 1, ACK 2, ACK 4, DATA 1, ERROR} through a ServerSocket channel (780 sequences): one per call, in order; '
-                  'empty channel fails after the 50 ms time-out (quick tier: the part named for the property)'})
+                  'empty channel fails after the 50 ms time-out (each property runs its part: C01 send, C02 recv, C08 channel order, C07 ERROR delivery and time-out)'})
 for _p in ('C01', 'C02', 'C04', 'C06', 'C07', 'C08', 'C13', 'C15', 'C16'):
     STANDINS.setdefault(_p, []).append(
         {'name': 'scenarios', 'bin': 'scenarios', 'extract': False, 'confirm': True, 'args': {'quick': [_p, '--quick'], 'thorough': [_p]},
